@@ -130,6 +130,21 @@ def run(ctx: Any, prog: Program) -> None:
               f'characters matched by ESCAPE_MULTILINE_RE {sorted(Sm)} must all have a replacement in ESCAPES_INV', func='<module>', text='ESCAPE_MULTILINE_RE charset')
     # escape_text: return (ESCAPE_MULTILINE_RE if multiline else ESCAPE_RE).sub(_escape_matcher, text)
     et = tk.func('escape_text')
+    # purity: the result is a function of (text, multiline) alone.  A module-level mutable container read or written by escape_text makes the
+    # answer depend on earlier calls - in particular on calls made with the other mode.
+    mutable_globals = {t.id for st in tk.tree.body if isinstance(st, (ast.Assign, ast.AnnAssign)) and st.value is not None
+                       and (isinstance(st.value, (ast.Dict, ast.Set, ast.List, ast.ListComp, ast.DictComp, ast.SetComp)) or (isinstance(st.value, ast.Call) and dotted(st.value.func) in ('set', 'dict', 'list', 'collections.OrderedDict', 'OrderedDict', 'defaultdict', 'collections.defaultdict')))
+                       for t in (st.targets if isinstance(st, ast.Assign) else [st.target]) if isinstance(t, ast.Name)}
+    et_params = {a.arg for a in et.args.args}
+    written_by_et = {dotted(c.func.value) for c in ast.walk(et) if isinstance(c, ast.Call) and isinstance(c.func, ast.Attribute) and c.func.attr in ('add', 'append', 'update', 'setdefault', 'pop', 'clear', 'discard', 'remove', '__setitem__')} | \
+                    {dotted(t.value) for a in ast.walk(et) if isinstance(a, ast.Assign) for t in a.targets if isinstance(t, ast.Subscript)}
+    decorated_cache = [d for d in et.decorator_list if 'cache' in ast.unparse(d)]
+    state = sorted((written_by_et & mutable_globals) - et_params)
+    ctx.check('C02.T2', not state, tk, et, f'escape_text keeps state between calls in {state}: what it returns for a string then depends on earlier calls, including calls with the other value of `multiline` '
+              '(a string left unchanged in multiline mode is later handed back with its raw line break in single-line mode)', func='escape_text', text='escape_text is a pure function of its arguments')
+    if decorated_cache:
+        keyed = all(len(et.args.args) >= 2 for _ in decorated_cache)
+        ctx.check('C02.T2', keyed, tk, et, 'escape_text is memoised by a decorator: both arguments are part of the key', func='escape_text', text='memoised on (text, multiline)')
     rets = [n for n in ast.walk(et) if isinstance(n, ast.Return)]
     shape_ok = False
     detail = 'escape_text must be a single `.sub(_escape_matcher, text)` on the regex chosen by `multiline`'
@@ -236,6 +251,19 @@ def run(ctx: Any, prog: Program) -> None:
                         grew = True
                         break
                     ok = (out.kind == 'next' and out.lists.get(acc) == have + [c] and out.consumed == len(unit) and out.rewinds == 0)
+                    if out.kind == 'need-input':
+                        # the handler looks past the unit: whatever follows (any character, or the end of the text) must not change what the
+                        # unit contributes, and the look-ahead must be given back (net consumption = the unit)
+                        ok = True
+                        for nxt in list(alphabet) + [None]:
+                            o2 = iterate(unit + [nxt], env=st, have=have)
+                            if o2.kind == 'need-input':
+                                raise AnalysisError(f'_handle_string looks more than one character past the unit {"".join(map(str, unit))!r}')
+                            if not (o2.kind == 'next' and o2.lists.get(acc) == have + [c] and o2.consumed == len(unit)):
+                                ok = False
+                                out = o2
+                                out.value = f'when followed by {nxt!r}'
+                                break
                     results.append((st, c, escaped, unit, out, ok, have))
                     if out.kind == 'next':
                         nl = out.lists.get(acc) or []
@@ -357,6 +385,8 @@ def run(ctx: Any, prog: Program) -> None:
 
 
 MUTANTS = [
+    {'id': 'escaped_quote_before_newline_ends_string', 'file': 'tokenizer.py', 'find': "                elif escape == '\\n':\n                    continue  # Allow \\ at the end of a line to skip.\n", 'replace': "                elif escape == '\\n':\n                    continue  # Allow \\ at the end of a line to skip.\n                elif escape == '\"' and self._peek_char() in (None, '\\r', '\\n'):\n                    value_chars.append('\\\\')\n                    return Token.STRING, ''.join(value_chars)\n", 'extra': [{'file': 'tokenizer.py', 'find': "    def _get_token(self) -> tuple[Token, str]:\n        \"\"\"Return the next token, value pair.\"\"\"", 'replace': "    def _peek_char(self) -> Optional[str]:\n        char = self._next_char()\n        self._char_index -= 1\n        return char\n\n    def _get_token(self) -> tuple[Token, str]:\n        \"\"\"Return the next token, value pair.\"\"\""}], 'expect': 'C02.T3'},
+    {'id': 'escape_text_memo_ignores_mode', 'file': 'tokenizer.py', 'find': "    return (ESCAPE_MULTILINE_RE if multiline else ESCAPE_RE).sub(_escape_matcher, text)", 'replace': "    if text in _PLAIN_TEXT:\n        return text\n    result = (ESCAPE_MULTILINE_RE if multiline else ESCAPE_RE).sub(_escape_matcher, text)\n    if result is text:\n        _PLAIN_TEXT.add(text)\n    return result", 'extra': [{'file': 'tokenizer.py', 'find': "def _escape_matcher(match", 'replace': "_PLAIN_TEXT: set = set()\n\n\ndef _escape_matcher(match"}], 'expect': 'C02.T2'},
     {'id': 'raw_newline_eats_decoded_backslash', 'file': 'tokenizer.py', 'find': "                self.line_num += 1\n            else:\n                last_was_cr = False\n", 'replace': "                self.line_num += 1\n                if value_chars and value_chars[-1] == '\\\\':\n                    value_chars.pop()\n                    continue\n            else:\n                last_was_cr = False\n", 'expect': 'C02.T3'},
     {'id': 'multiline_by_replace', 'file': 'tokenizer.py', 'find': "    return (ESCAPE_MULTILINE_RE if multiline else ESCAPE_RE).sub(_escape_matcher, text)", 'replace': "    escaped = ESCAPE_RE.sub(_escape_matcher, text)\n    if multiline:\n        escaped = escaped.replace('\\\\n', '\\n')\n    return escaped", 'expect': 'C02.T2'},
     {'id': 'inv_wrong_symbol', 'file': 'tokenizer.py', 'find': "ESCAPES_INV = {char: f'\\\\{sym}'", 'replace': "ESCAPES_INV = {char: f'\\\\{char}'", 'expect': 'C02.T1'},
